@@ -582,6 +582,38 @@ func (fr *Frame) invNames(li *loopInfo, st *State, phi map[*ssa.Phi]Value) map[s
 			names["rangeindex"] = SVal{V: Scalar{Sub(cand[0], IntLit(1))}, T: types.Typ[types.Int]}
 		}
 	}
+	// the converse rewrite: a counting loop `for i := 0; i < len(xs); i++` turned into `for i, x := range xs`.
+	// The key variable i is then defined inside the body as rangeindex+1; at the cut point it stands for the
+	// number of completed iterations, which is rangeindex+1 as well.
+	for b := range li.blocks {
+		for _, ins := range b.Instrs {
+			dr, ok := ins.(*ssa.DebugRef)
+			if !ok {
+				continue
+			}
+			id := identOf(dr)
+			if id == "" {
+				continue
+			}
+			if _, have := names[id]; have {
+				continue
+			}
+			bo, ok := dr.X.(*ssa.BinOp)
+			if !ok || bo.Op != token.ADD {
+				continue
+			}
+			ph, ok := bo.X.(*ssa.Phi)
+			c, ok2 := bo.Y.(*ssa.Const)
+			if !ok || !ok2 || ph.Block() != li.header || ph.Comment != "rangeindex" || c.Value == nil || c.Int64() != 1 {
+				continue
+			}
+			if sv, ok := names["rangeindex"]; ok {
+				if sc, ok := sv.V.(Scalar); ok {
+					names[id] = SVal{V: Scalar{Add(sc.T, IntLit(1))}, T: dr.X.Type()}
+				}
+			}
+		}
+	}
 	u.applyAliases(names) // after the loop-carried values: an aliased name must see the phi value too
 	return names
 }
